@@ -72,19 +72,9 @@ def check(R, F):
         R.require(lvl == 'Sub(Name::len(arg2),1_usize)', 'prune', rmv.gpath + '|start-level', rmv.where(b), 'starts at len(name) - 1', 'remove starts at level %s' % lvl)
 
     # ---- (b) longest match
+    from rules.name_rules import check_longest_match
+    check_longest_match(R, F)
     lic = F.fn(CAT + 'lookup_in_class')
-    ors = calls_in(lic, 'Option::<T>::or')
-    ok = len(ors) == 1
-    if ok:
-        b, t = ors[0]
-        recv = slice_of(lic, t['args'][0])
-        alt = slice_of(lic, t['args'][1])
-        ok = any(n2 == CAT + 'lookup_in_class' for n2 in recv.call_names()) and not any(n2 == CAT + 'lookup_in_class' for n2 in alt.call_names()) \
-            and any(fp and fp[-1] == 'data' for fp in alt.field_paths())
-    R.require(ok, 'longest-match', lic.gpath + '|deeper-first', lic.where(ors[0][0]) if ors else lic.where(), 'deeper match preferred, node entry as fallback', 'lookup_in_class no longer prefers the deeper match over the node\'s own entry')
-    rec = calls_in(lic, CAT + 'lookup_in_class')
-    ok = len(rec) == 1 and paths.show_operand(lic, rec[0][1]['args'][2]) == 'Sub(arg3,1_usize)' and 'children' in paths.show_operand(lic, rec[0][1]['args'][0])
-    R.require(ok, 'longest-match', lic.gpath + '|descends-one-label', lic.where(), 'recurses into children[name[level-1]] with level-1', 'recursion of lookup_in_class does not descend exactly one label')
     lk = F.fn('<' + CAT.replace('catalog::', 'catalog::HashMapTreeCatalog<Z, M>') + ' as db::catalog::Catalog>::lookup')
     for b, t in calls_in(lk, CAT + 'lookup_in_class'):
         lvl = paths.show_operand(lk, t['args'][2])
